@@ -7,7 +7,13 @@
 (* and the result of a call is a deterministic function of <<input, settings, entry>> and the   *)
 (* (ready) tables - so it cannot depend on which thread initialised what, or in which order.    *)
 EXTENDS Integers, Sequences, FiniteSets, TLC
-CONSTANTS Threads, Inputs, MaxCalls
+CONSTANTS
+  \* @type: Set(Str);
+  Threads,
+  \* @type: Set(Int);
+  Inputs,
+  \* @type: Int;
+  MaxCalls
 
 \* the dependency graph of the tables a conversion forces
 Tables == {"ASCII_PROPERTIES", "UNICODE_FRAGMENTS", "UNICODE_PROPERTIES", "CIRCLE_ART_MAP", "CIRCLE_MAP", "CIRCLES_SPAN",
@@ -26,14 +32,23 @@ Deps(T) ==
 Roots == {"ASCII_PROPERTIES", "UNICODE_PROPERTIES", "UNICODE_FRAGMENTS", "CIRCLES_SPAN", "FLATTENED_QUARTER_ARC_SPAN",
           "FLATTENED_HALF_ARC_SPAN", "FLATTENED_THREE_QUARTERS_ARC_SPAN"}
 
-VARIABLES tstate,   \* table -> "uninit" | "running" | "ready"
-          owner,    \* table -> thread running its initialiser (or "none")
-          stack,    \* thread -> sequence of tables whose initialiser the thread is inside (innermost last)
-          pc,       \* thread -> "idle" | "call"
-          arg,      \* thread -> input of the call in progress
-          ncalls,   \* thread -> calls completed
-          inits,    \* table -> number of times its initialiser was started
-          results   \* set of <<input, result>> observed so far
+VARIABLES
+  \* @type: Str -> Str;
+  tstate,   \* table -> "uninit" | "running" | "ready"
+  \* @type: Str -> Str;
+  owner,    \* table -> thread running its initialiser (or "none")
+  \* @type: Str -> Seq(Str);
+  stack,    \* thread -> sequence of tables whose initialiser the thread is inside (innermost last)
+  \* @type: Str -> Str;
+  pc,       \* thread -> "idle" | "call"
+  \* @type: Str -> Int;
+  arg,      \* thread -> input of the call in progress
+  \* @type: Str -> Int;
+  ncalls,   \* thread -> calls completed
+  \* @type: Str -> Int;
+  inits,    \* table -> number of times its initialiser was started
+  \* @type: Set(<<Int, Int>>);
+  results   \* set of <<input, result>> observed so far
 vars == <<tstate, owner, stack, pc, arg, ncalls, inits, results>>
 
 Init == /\ tstate = [T \in Tables |-> "uninit"] /\ owner = [T \in Tables |-> "none"]
